@@ -10,6 +10,7 @@ pub mod c13;
 pub mod c13s;
 pub mod c15;
 pub mod c16;
+pub mod c20net;
 pub mod pty;
 pub mod serial;
 
